@@ -170,6 +170,17 @@ func validateResponseHeader(headerName string, headerRef *openapi3.HeaderRef, in
 	var sm *openapi3.SerializationMethod
 	dec := &headerParamDecoder{header: input.Header}
 
+	if headerRef.Value.Schema == nil {
+		// A header defined by `content` has no schema to decode against: only its presence can be checked.
+		if headerRef.Value.Required && len(input.Header.Values(headerName)) == 0 {
+			return &ResponseError{
+				Input:  input,
+				Reason: fmt.Sprintf("response header %q missing", headerName),
+			}
+		}
+		return nil
+	}
+
 	if sm, err = headerRef.Value.SerializationMethod(); err != nil {
 		return &ResponseError{
 			Input:  input,
